@@ -91,7 +91,33 @@ def _switch_facts(body, s, reaching, depth, _cache):
         vals = paths.bool_values(t, src[2])
         vs = {vals.get(lab) for lab in reaching}
         if len(vs) == 1 and None not in vs:
-            facts.add(("call", callee_def(src[1]), vs.pop(), src[3]))
+            v = vs.pop()
+            facts.add(("call", callee_def(src[1]), v, src[3]))
+            # `kind == Kind::X` (derived PartialEq on a unit-like variant of a workspace enum) holds exactly when `match kind { Kind::X => .. }`
+            # takes that arm: the same enum fact, and the same inheritance from where the stored decision was made
+            d = callee_def(src[1])
+            if d in ("core::cmp::PartialEq::eq", "core::cmp::PartialEq::ne") and len(src[1]["args"]) == 2 and (v == d.endswith("::eq")):
+                for i in (0, 1):
+                    ch = flow.resolve_chain(body, src[1]["args"][i])
+                    df = flow.single_def(body, ch[-1][0]) if ch and not ch[-1][1] else None
+                    if df is None or df["kind"] != "assign" or df.get("proj"):
+                        continue
+                    rv = df["rv"]
+                    if rv["k"] == "agg" and rv.get("agg") == "adt" and rv.get("variant") and not rv["ops"] and _is_plain_enum(rv.get("adt", "")) and \
+                            not rv["adt"].startswith("core::"):
+                        subj = flow.resolve_place(body, src[1]["args"][1 - i])
+                        names = {rv["variant"]}
+                        facts.add(("enum", rv["adt"], frozenset(names), subj))
+                        wrap = _wrapper_depth(subj[1]) if subj is not None else None
+                        if depth < 3 and subj is not None and wrap is not None:
+                            contrib = _enum_def_sites(body, subj[0], names, wrap, rv["adt"])
+                            if contrib:
+                                inter = None
+                                for bi in contrib:
+                                    f = set(dominating_facts(body, bi, depth + 1, _cache))
+                                    inter = f if inter is None else (inter & f)
+                                facts |= (inter or set())
+                        break
     elif src[0] == "bin":
         vals = paths.bool_values(t, src[2])
         vs = {vals.get(lab) for lab in reaching}
